@@ -87,6 +87,12 @@ Definition mutate0 (l : list N) (o : op) : option (list N * out0) :=
   | OReplaceCh a b m f => let '(l', k) := l0_replace_ch l a b m f in Some (l', R0Nat k)
   | OReplaceS rm wm m f => let '(l', k) := l0_replace_sub l (sb rm) (sb wm) m f in Some (l', R0Int (Z.of_N k))
   | OUnflatten bytes => Some (if list_eqb (cstr bytes) bytes then (l, R0St StErr) else (cstr bytes, R0St StOk))
+  | OUnflattenW arena win ps =>
+      let r := run_pre arena win ps in
+      Some (match read_cstr_w arena win r with
+            | (None, r') => (l, R0Int (w_result false r'))
+            | (Some v, r') => (v, R0Int (w_result true r'))
+            end)
   | OReplaceMulti pairs m => let '(l', k) := l0_replace_multi l pairs m in Some (l', R0Int (Z.of_N k))
   | OSetAt i ch => Some (if i <? lenN l then upd l i ch else l, R0None)
   | OShiftInt z => Some (l ++ dec_of_Z z, R0None)
